@@ -277,6 +277,7 @@ fn run_history(out: &mut Out, v: Version, sizes: &[usize], class: LeafClass, rng
 }
 
 pub fn run(ctx: &Ctx, out: &mut Out) {
+    crate::inproc::install_shard_logger(ctx.shard, out);
     let mut rng = ctx.rng("C04");
     if let Some(r) = &ctx.replay {
         let v = if r["version"] == "google" { Version::Google } else { Version::RfcDraft13 };
